@@ -414,6 +414,53 @@ TOL_ROLES = {
 }
 
 
+def _assigned_to_local(node):
+    st = node
+    while st is not None and not isinstance(st, ast.stmt):
+        st = getattr(st, "_parent", None)
+    return isinstance(st, ast.Assign) and len(st.targets) == 1 and isinstance(st.targets[0], ast.Name)
+
+
+def _helper_roles(prog, sig):
+    """roles the i-th parameter of a small project helper plays inside it (one level), or None if the callee is not such a helper"""
+    name, _sep, pos = sig.partition("#")
+    if name in {r.split("#")[0] for roles in TOL_ROLES.values() for r in roles if "#" in r}:
+        return None           # a comparator that has confirmed roles of its own is a role, not a pass-through
+    cands = [f for _m, q, f in prog.all_functions() if q.split(".")[-1] == name]
+    if len(cands) != 1 or len(cands[0].body) > 4:
+        return None
+    f = cands[0]
+    params = [a.arg for a in f.args.args if a.arg not in ("self", "cls")]
+    pname = params[int(pos)] if pos.isdigit() and int(pos) < len(params) else (pos if pos in params else None)
+    if pname is None:
+        return None
+    roles = {_use_signature(n) for n in walk_no_nested(f) if isinstance(n, ast.Name) and n.id == pname and isinstance(n.ctx, ast.Load)}
+    return roles or None
+
+
+def _stored_unread(node):
+    """the value is assigned to self.<x>, and <x> is not read anywhere in the module: it is not consumed"""
+    st = node
+    while st is not None and not isinstance(st, ast.stmt):
+        st = getattr(st, "_parent", None)
+    if not (isinstance(st, ast.Assign) and len(st.targets) == 1 and isinstance(st.targets[0], ast.Attribute)
+            and isinstance(st.targets[0].value, ast.Name) and st.targets[0].value.id == "self"):
+        return False
+    x = st.targets[0].attr
+    fn = enclosing_function(node)
+    scope = getattr(fn, "_class", None) or getattr(node, "_module", None) and node._module.tree
+    if scope is None:
+        return False
+    # (the attribute belongs to objects of the enclosing class: it is consumed if a method of that class reads self.<x>; a class that
+    # is subclassed or whose objects are read from outside is beyond this test and stays reported)
+    subclassed = any(isinstance(c_, ast.ClassDef) and any((dotted(b_) or "").split(".")[-1] == getattr(scope, "name", "?") for b_ in c_.bases)
+                     for c_ in ast.walk(node._module.tree))
+    if subclassed:
+        return False
+    return not any(isinstance(a, ast.Attribute) and a.attr == x and isinstance(a.ctx, ast.Load) and isinstance(a.value, ast.Name)
+                   and a.value.id == "self" for a in ast.walk(scope))
+
+
 def e6(prog, ctx):
     uses = tolerance_uses(prog)
     n = 0
@@ -424,6 +471,10 @@ def e6(prog, ctx):
             if attr not in TOL_ROLES:
                 ctx.fail("E6", node, q, "params.%s as %s" % (attr, sig), "params.%s is consumed by the assignment code but has no confirmed role: "
                          "a new tolerance must be triaged (which documented tolerance is it?)" % attr)
+            elif "#" in sig and _helper_roles(prog, sig) is not None and _helper_roles(prog, sig) <= TOL_ROLES[attr]:
+                ctx.ok("E6", "%s:%d" % (m.rel, node.lineno), "params.%s passed to %s, which uses it as %s" % (attr, sig, sorted(_helper_roles(prog, sig))))
+            elif sig == "assign" and _stored_unread(node):
+                ctx.ok("E6", "%s:%d" % (m.rel, node.lineno), "params.%s is copied into an attribute that nothing reads" % attr, nontrivial=False)
             elif sig not in TOL_ROLES[attr]:
                 ctx.fail("E6", node, q, "params.%s as %s" % (attr, sig),
                          "tolerance params.%s is used here as `%s`; its confirmed roles are %s. A tolerance moved to another comparison changes "
